@@ -1782,3 +1782,89 @@ func ruleR20_15(r *Run) {
 	}
 	r.check(n >= 4, "repo:geometry-sized-allocations", fmt.Sprintf("%d allocations sized by a geometry's voxel count", n), "none found: rule needs review", "-")
 }
+
+func init() {
+	register(ruleDef{ID: "R14.8", Prop: "C14", Tier: "quick", Floor: 2,
+		Title: "a failed or abandoned pyramid update releases what it holds: Mutation.Execute unlocks on every exit and, when a level fails, clears the updating marks of the levels it will not compute; Abort clears them all",
+		Fn:    ruleR14_8})
+}
+
+func ruleR14_8(r *Run) {
+	w := r.W
+	ex := w.method("datatype/common/downres", "Mutation", "Execute")
+	if ex == nil {
+		r.violation("downres.Mutation.Execute", "not found", "-")
+		return
+	}
+	isStop := func(in ssa.Instruction) bool {
+		c, ok := in.(ssa.CallInstruction)
+		return ok && c.Common().IsInvoke() && c.Common().Method.Name() == "StopScaleUpdate"
+	}
+	isStore := func(in ssa.Instruction) bool {
+		c, ok := in.(ssa.CallInstruction)
+		return ok && c.Common().IsInvoke() && c.Common().Method.Name() == "StoreDownres"
+	}
+	// from a failed StoreDownres the error exit passes StopScaleUpdate (of the remaining levels)
+	n := 0
+	for _, c := range calls(ex) {
+		if !isStore(c) {
+			continue
+		}
+		n++
+		// the release is a loop over the remaining levels (empty when the last level failed): passing the
+		// loop's header counts
+		isRelease := func(in ssa.Instruction) bool {
+			if isStop(in) {
+				return true
+			}
+			if ifi, ok := in.(*ssa.If); ok {
+				for _, sc := range calls(ex) {
+					if isStop(sc) && guardedByEdge(ifi, 0, sc) && ifi.Block().Dominates(sc.Block()) && blockReaches(sc.Block(), ifi.Block()) {
+						return true
+					}
+				}
+			}
+			return false
+		}
+		p := findPath(ex, c, isRelease, func(in ssa.Instruction) bool {
+			ret, ok := in.(*ssa.Return)
+			return ok && isErrorExit(ret)
+		}, nil)
+		r.check(p == nil, "downres.Mutation.Execute:failed-level-releases-remaining-scales", "an error exit after a failed level passes StopScaleUpdate",
+			"when storing a level fails, Execute returns without clearing the updating marks of the levels it did not compute: the volume never reports idle again and everything waiting for idle hangs", w.pos(c.Pos()), w.renderPath(p)...)
+	}
+	r.check(n > 0, "downres.Mutation.Execute:stores-levels", "StoreDownres called", "Execute no longer stores levels", w.fpos(ex))
+	// the mutation's lock is released on every exit: a deferred Unlock, or an Unlock on every path
+	hasDefer := false
+	for _, c := range calls(ex) {
+		if d, ok := c.(*ssa.Defer); ok {
+			if cal := d.Call.StaticCallee(); cal != nil && cal.Name() == "Unlock" {
+				hasDefer = true
+			}
+		}
+	}
+	okUnlock := hasDefer
+	if !hasDefer {
+		isUnlock := func(in ssa.Instruction) bool {
+			c, ok := in.(*ssa.Call)
+			return ok && c.Call.StaticCallee() != nil && c.Call.StaticCallee().Name() == "Unlock"
+		}
+		var lock ssa.Instruction
+		for _, c := range calls(ex) {
+			if cc, ok := c.(*ssa.Call); ok && cc.Call.StaticCallee() != nil && cc.Call.StaticCallee().Name() == "Lock" {
+				lock = c
+			}
+		}
+		okUnlock = lock != nil && findPath(ex, lock, isUnlock, isReturn, nil) == nil
+	}
+	r.check(okUnlock, "downres.Mutation.Execute:unlocks-on-every-exit", "the mutation's lock is released on every exit", "Execute can return with the mutation's lock held (error path): a later BlockMutated or Execute on it blocks for ever", w.fpos(ex))
+	if ab := w.method("datatype/common/downres", "Mutation", "Abort"); ab != nil {
+		has := false
+		for _, c := range calls(ab) {
+			if isStop(c) {
+				has = true
+			}
+		}
+		r.check(has, "downres.Mutation.Abort:clears-updating-marks", "Abort calls StopScaleUpdate", "Abort no longer clears the updating marks", w.fpos(ab))
+	}
+}
